@@ -171,5 +171,9 @@ def body(check):
     check.guarded("DT-LOCAL", "integration (implicit)", lambda: local_implicit(check))
     res, info = analyse_solve(check.proj)
     report(check, res, ("DRV-DT-MIN",))
+    # "a solve USES the minimum as its global step": the time of the field advances by exactly the step it is given --
+    # every copy the driver and the stages make carries the time unmodified (same obligations as C07 FIELD-DEEPCOPY)
+    from .c07 import field_deepcopy
+    check.guarded("FIELD-DEEPCOPY", "field.fdata", lambda: field_deepcopy(check))
     from ..units import check_timestep_units
     check_timestep_units(check, "UNIT-HOMOG")
